@@ -455,3 +455,19 @@ def add_biases(rnd, req, names=None, length=None, prob_mix=True, disabled_prob=0
 def biased_request(rnd, method=None, names=None, length=None, prob_mix=True):
     req = any_request(rnd, method)
     return add_biases(rnd, req, names=names, length=length, prob_mix=prob_mix)
+
+
+def choquet_chain_request(rnd):
+    """Choquet request in which some alternatives hold chains of near-ties: neighbouring sorted values within the 1e-5 tie
+    tolerance of the implementation, extremes further apart, criterion ids not in value order"""
+    req = utility_request(rnd, 'choquetIntegral', n_crits=rnd.choice([3, 4, 4]))
+    cids = [c['id'] for c in req['criteria']]
+    for a in req['knownAlternatives']:
+        if rnd.random() < 0.7:
+            base = rnd.randint(0, 8) / 8.0
+            step = rnd.choice([0.8e-5, 0.9e-5, 0.5e-5, 0.99e-5])
+            order = list(range(len(cids)))
+            rnd.shuffle(order)
+            for k, ci in enumerate(order):
+                a['criteria'][cids[ci]] = base + k * step
+    return req
